@@ -1,5 +1,5 @@
 import Driver.CifArg
-import CifModel.Model.Serialize
+import CifModel.Model.Columns
 /-
   family `ser` (property C07): serialise / deserialise a value, and the buffer's growth loop on its own.
 
@@ -14,56 +14,8 @@ import CifModel.Model.Serialize
 namespace Driver.Fam.Ser
 open Driver CifModel CifModel.Model.Serialize
 
-/-- digits `0-9` of a string prefix -/
-def spanDigits (s : Str) : Str × Str := s.span (fun c => 48 ≤ c && c ≤ 57)
-
-/-- drop leading zeroes but keep the last digit -/
-def stripZeros : Str → Str
-  | [] => []
-  | [d] => [d]
-  | d :: ds => if d = 48 then stripZeros ds else d :: ds
-
-/-- transcription of cif_value_parse_numb (value.c) for the driver: (negative, digits, su digits, scale).
-    (Group gB owns the proof-level model `Model.Numb.parseNumb`; this copy exists so that the families of group gG do
-    not depend on it — the correspondence runs compare it with the real parser on every number they contain.) -/
-def parseNumb (t : Str) : Option NumbFields := do
-  let (neg, r0) := match t with
-    | 45 :: r => (true, r)
-    | 43 :: r => (false, r)
-    | r => (false, r)
-  let (ip, r1) := spanDigits r0
-  let (hasPoint, fp, r2) := match r1 with
-    | 46 :: r => let (f, r') := spanDigits r; (true, f, r')
-    | r => (false, [], r)
-  if ip.isEmpty && fp.isEmpty then none
-  let digits := stripZeros (ip ++ fp)
-  let fracLen : Int := if hasPoint then fp.length else 0
-  -- optional exponent
-  let (expo, r3) ← match r2 with
-    | c :: r =>
-      if c = 69 || c = 101 then
-        let (eneg, ra) := match r with
-          | 45 :: x => (true, x)
-          | 43 :: x => (false, x)
-          | x => (false, x)
-        let (ed, rb) := spanDigits ra
-        if ed.isEmpty then none
-        else
-          let e := ed.foldl (fun (acc : Nat) c => if acc < 214748363 then acc * 10 + (c - 48) else acc) 0
-          some ((if eneg then -(e : Int) else (e : Int)), rb)
-      else some ((0 : Int), r2)
-    | [] => some ((0 : Int), [])
-  let scale : Int := -expo + fracLen
-  -- optional uncertainty
-  let (su, r4) ← match r3 with
-    | 40 :: r =>
-      let (sd, ra) := spanDigits r
-      match ra with
-      | 41 :: rb => if sd.isEmpty then none else some (some ((stripZeros sd).map (· - 48)), rb)
-      | _ => none
-    | r => some (none, r)
-  if !r4.isEmpty then none
-  pure (neg, digits.map (· - 48), su, scale)
+/-- the number-text parser of the model (group gB's `Model.Numb.parseNumb`) -/
+def parseNumb : Str → Option NumbFields := CifModel.Model.Columns.parseFields
 
 /-- how the families of this group read a number token: fields from the text (an unparsable text cannot occur in a
     request the executor accepts; it maps to a value that shows as such) -/
